@@ -77,7 +77,9 @@ SYSCALLS = 'pwrite64,write,pwritev,writev,ftruncate'
 
 
 def _strace(args, path, inject_at=None, trace_out='/dev/null'):
-	import subprocess, sys
+	import subprocess, sys, shutil as _sh
+	if _sh.which('strace') is None:
+		return subprocess.CompletedProcess(args, 127, stdout=b'strace not found', stderr=b'')
 	cmd = ['strace', '-f', '-o', trace_out, '-e', 'trace=' + SYSCALLS]
 	if inject_at is not None:
 		cmd += ['-e', f'inject={SYSCALLS}:signal=SIGKILL:when={inject_at}']
@@ -104,7 +106,11 @@ def run_syscall_case(case, ctx):
 		trace = os.path.join(d, 'trace.txt')
 		r = _strace(wargs, path, None, trace)
 		if r.returncode != 0 or not os.path.exists(path):
-			raise HarnessError(f'strace dry run failed ({r.returncode}): {r.stdout[-500:]!r}')
+			out_txt = r.stdout.decode('utf-8', 'replace') if isinstance(r.stdout, bytes) else str(r.stdout)
+			if 'ptrace' in out_txt or 'Operation not permitted' in out_txt or 'not found' in out_txt:
+				# system-call tracing is not available in this environment: the library-level crash points still run
+				return {'nontrivial': False, 'classes': ['syscall_level_unavailable']}
+			raise HarnessError(f'strace dry run failed ({r.returncode}): {out_txt[-500:]!r}')
 		calls = [l for l in open(trace, errors='replace') if any(f' {c}(' in l or l.split(' ', 1)[-1].startswith(c + '(') for c in SYSCALLS.split(','))]
 		count = len(calls)
 		if count == 0:
